@@ -138,10 +138,10 @@ func BuildLayout(scripts []ScriptSpec, numFeatures int) []byte {
 // "post" and "name" tables and just enough other tables for golang.org/x/image/font/sfnt.
 func BuildFont(numGlyphs int, post, name []byte) []byte {
 	head := make([]byte, 54)
-	head[1] = 1                           // version 1.0
+	head[1] = 1                                     // version 1.0
 	copy(head[12:], []byte{0x5F, 0x0F, 0x3C, 0xF5}) // magic
-	head[18], head[19] = 0x03, 0xE8       // unitsPerEm 1000
-	head[51] = 0                          // short loca
+	head[18], head[19] = 0x03, 0xE8                 // unitsPerEm 1000
+	head[51] = 0                                    // short loca
 	maxp := make([]byte, 32)
 	maxp[1] = 1
 	maxp[4], maxp[5] = byte(numGlyphs>>8), byte(numGlyphs)
